@@ -1,25 +1,37 @@
 import GoatSpec.Drv.Text
+import GoatSpec.Drv.Mark
 /-! Line-protocol driver: one request per input line, one answer per output line.
     Handlers live in GoatSpec/Drv/*.lean (`handleX : List String → Option String`). -/
 open GoatSpec GoatSpec.Drv
 
+/-- stateless handlers -/
 def handlers : List (List String → Option String) := [handleText]
 
-def handle (toks : List String) : String :=
+/-- `load <abstract file>` keeps one current file for the `marks` / `scopes` / `judge:…` requests
+    that follow (a corpus file is loaded once and queried many times) -/
+def handle (cur : Option Loaded) (toks : List String) : Option Loaded × String :=
   match toks with
-  | "ping" :: _ => "pong"
-  | _ => (handlers.findSome? (fun h => h toks)).getD "error unknown-op"
+  | "ping" :: _ => (cur, "pong")
+  | "load" :: rest =>
+    match parseFile rest with
+    | .ok f => (some (mkLoaded f), "loaded")
+    | .error e => (none, s!"error parse {e}")
+  | _ =>
+    match (handleMark (cur.map (·.c.f)) toks).orElse (fun _ => handleMarkJudge cur toks) with
+    | some r => (cur, r)
+    | none => (cur, (handlers.findSome? (fun h => h toks)).getD "error unknown-op")
 
-partial def loop (h : IO.FS.Stream) (out : IO.FS.Stream) : IO Unit := do
+partial def loop (h : IO.FS.Stream) (out : IO.FS.Stream) (cur : Option Loaded) : IO Unit := do
   let line ← h.getLine
   if line.isEmpty then return ()
   let l := (line.dropEndWhile (fun c => c == '\n' || c == '\r')).toString
   let toks := (l.splitOn " ").filter (· != "")
-  out.putStrLn ((handle toks).trimAsciiEnd.toString)
-  loop h out
+  let (cur', ans) := handle cur toks
+  out.putStrLn (ans.trimAsciiEnd.toString)
+  loop h out cur'
 
 def main : IO Unit := do
   let stdin ← IO.getStdin
   let stdout ← IO.getStdout
-  loop stdin stdout
+  loop stdin stdout none
   stdout.flush
